@@ -77,6 +77,18 @@ type QEP struct {
 	C int
 }
 
+// structs that are held directly in an interface word (one pointer or map member): reached through a pointer
+// they are compiled "indirect", a property the filtered program has to keep
+type QPS struct{ N *int64 }
+type QMS struct{ M map[string]int }
+type QW struct {
+	P *QPS
+	V QPS
+	I interface{}
+	M *QMS
+	W QMS
+}
+
 type Q1 struct {
 	A int
 	B Q2
@@ -93,11 +105,14 @@ func c19Values() []interface{} {
 	q2b := Q2{A: 3, F: map[string]interface{}{"A": 1, "z": []interface{}{1}}}
 	full := Q1{A: 1, B: q2, C: &q2, D: []Q2{q2, q2b}, E: map[string]*Q2{"k": &q2, "n": nil}, F: &q2, G: "g"}
 	sparse := Q1{A: 0, B: q2b, C: nil, D: nil, E: nil, F: []interface{}{q3, &q2b, 1}, G: ""}
+	n7 := int64(7)
 	qb := QBase{A: 1, Z: &QZ{"za", true, 3}, W: 5}
 	qe := QE{QBase: qb, C: 9, N: QBase{A: 2, Z: &QZ{"n", false, 4}, W: 6}}
 	qep := QEP{X: 1, QBase: &qb, C: 9}
 	return []interface{}{full, &full, sparse, &sparse, q2, &q2, []Q1{full, sparse}, map[string]Q1{"m": full},
-		qe, &qe, qep, &QEP{X: 2, C: 3}, []QE{qe, {C: 1}}}
+		qe, &qe, qep, &QEP{X: 2, C: 3}, []QE{qe, {C: 1}},
+		QPS{&n7}, &QPS{&n7}, &QMS{map[string]int{"k": 1}}, QW{P: &QPS{&n7}, V: QPS{&n7}, I: &QPS{&n7}, M: &QMS{map[string]int{"k": 2}}, W: QMS{map[string]int{"j": 3}}},
+		&QW{P: &QPS{&n7}, I: QPS{&n7}}, []*QPS{{&n7}, nil}}
 }
 
 // ---- query generation ----------------------------------------------------------------------------
